@@ -327,9 +327,9 @@ var inflated = func(n int) []uint32 {
 func genWKB(out *bufio.Writer, r *vproto.Rng, tier string) {
 	w := &wkbEmitter{out: out, r: r}
 	thorough := tier == "thorough"
-	scale := 1
+	scale := 2
 	if thorough {
-		scale = 12
+		scale = 40
 	}
 
 	// 1. fixed corpus: small inflated counts FIRST, then growing (the worker is memory-limited)
